@@ -261,6 +261,29 @@ def run(ctx):
     res.rule("OTHER", 15)
     from rules import structural
     structural.filter_mpt(ctx, FN)
+    # ---- "in the order of v.links": a vertex class that overrides the public accessor (presents its links in the opposite order)
+    for d_, u_ in (("ANY", "NEIGHBOR"), ("FORWARD", "NEIGHBOR"), ("BACKWARD", "NONNEIGHBOR")):
+        try:
+            h.reset()
+            a_ = h.new("RevLinksVert", "a")
+            bs_ = [h.new("Vertex", f"b{i}") for i in range(3)]
+            ls_ = [h.new("DirectedEdge", "L0", a_, bs_[0]), h.new("UnDirectedEdge", "L1", bs_[1], a_), h.new("DirectedEdge", "L2", bs_[2], a_)]
+            h.settle()
+            out = h.call(fn, a_, C[d_], C[u_], None)
+        except Unknown as u:
+            res.undecide(f"neighbors on a vertex class overriding links: {u}")
+            continue
+        want = []
+        for (cls_, pos_), o in reversed(list(zip((("DirectedEdge", "v1"), ("UnDirectedEdge", "v2"), ("DirectedEdge", "v2")), bs_))):
+            if expected(KINDS[cls_], pos_, d_, u_, "none") == "OE":
+                want.append(o.name)
+        got = [x.name for x in out.value.items] if out.kind == "return" and isinstance(out.value, Seq) else repr(out)
+        res.ob(got == want, sig=("links-override", d_, u_))
+        if got != want:
+            res.violation("TABLE", FN, f"dir={d_},unknown={u_},vertex-class-overrides-links",
+                          f"a Vertex subclass whose `links` property presents the links in the opposite order: neighbors(a, {d_}, {u_}) returns {got}; in the order of a.links it is {want}",
+                          replay="from edgegraph.structure import *\nfrom edgegraph.traversal import helpers\nclass R(Vertex):\n    @property\n    def links(self): return tuple(reversed(super().links))\n"
+                                 "a, b0, b1 = R(), Vertex(), Vertex()\nDirectedEdge(a, b0); UnDirectedEdge(b1, a)\nprint(helpers.neighbors(a) == [b1, b0])")
     # ---- object lifetime: caching on, a throw-away filter, then a new filter allocated where the dropped one lived (see C05 KEY-LIFETIME)
     from rules import c05
     for d_, u_ in (("ANY", "NEIGHBOR"), ("FORWARD", "NEIGHBOR")):
